@@ -1573,9 +1573,14 @@ def run(ck):
     if tab2:
         arities = []
         for caller in (v2, gkv):
-            for x in q.walk_body(caller.node):
-                if isinstance(x, ast.Assign) and isinstance(x.value, ast.Call) and isinstance(x.value.func, ast.Name) and x.value.func.id == parser.name and isinstance(x.targets[0], (ast.Tuple, ast.List)):
-                    arities.append(len(x.targets[0].elts))
+            crd = CReach(caller)
+            seen_nodes = set()
+            for d in crd.defs:
+                if d.kind == "unpack" and d.node is not None and d.node.id not in seen_nodes and d.value is not None:
+                    dv = crd.expand(d.value, d.node)
+                    if isinstance(dv, ast.Call) and isinstance(dv.func, ast.Name) and dv.func.id == parser.name:
+                        seen_nodes.add(d.node.id)
+                        arities.append(d.arity)
         ck.floor("C23.fields-agree", len(arities), 2, "callers unpacking the field parser")
         cons_name = check_field_parser(ck, parser, tab2[0], arities)
         if cons_name:
